@@ -23,12 +23,20 @@ def scool_body(env, p):
         if per_cell:
             w = [env.int(f"{nm}_w{k}", 0, 9) for k in range(n)]
             extra[nm] = w
-            binsd[nm] = pd.DataFrame({"chrom": bins0["chrom"].tolist(), "start": env.array(bins0["start"].tolist(), "int64"),
-                                      "end": env.array(bins0["end"].tolist(), "int64"), "w": env.array(w, "int64")})
-    pixd = {nm: pd.DataFrame({"bin1_id": env.array(c[0], "int64"), "bin2_id": env.array(c[1], "int64"), "count": env.array(c[2], "int32")})
+            colsd = {"chrom": bins0["chrom"].tolist(), "start": env.array(bins0["start"].tolist(), "int64"),
+                     "end": env.array(bins0["end"].tolist(), "int64"), "w": env.array(w, "int64")}
+            order = ["chrom", "start", "w", "end"] if p.get("extra_in_middle") else ["chrom", "start", "end", "w"]
+            binsd[nm] = pd.DataFrame({k: colsd[k] for k in order})
+    fl = p.get("float_counts")
+    if fl:
+        # counts given as halves, stored through dtypes={"count": float}: the user's dtype must win over the default int32
+        cells = {nm: (c[0], c[1], [x / 2 for x in c[2]]) for nm, c in cells.items()}
+    pixd = {nm: pd.DataFrame({"bin1_id": env.array(c[0], "int64"), "bin2_id": env.array(c[1], "int64"),
+                              "count": env.array(c[2], "float64" if fl else "int32")})
             for nm, c in cells.items()}
     path = scratch_file("c17.scool")
-    co.create_scool(path, binsd if per_cell else (pd.DataFrame(bins0) if env.symbolic else bins0), pixd, ordered=True)
+    co.create_scool(path, binsd if per_cell else (pd.DataFrame(bins0) if env.symbolic else bins0), pixd, ordered=True,
+                    **({"dtypes": {"count": "float64"}} if fl else {}))
     fo = co.fileops
     env.cover("empty_cell", any(K == 0 for K in Ks))
     env.cover("several_cells", len(Ks) > 1)
@@ -71,6 +79,8 @@ def _cases(tier):
     for layout, kind, Ks in specs:
         for per_cell in (False, True):
             out.append(dict(layout=list(layout), kind=kind, Ks=list(Ks), per_cell_bins=per_cell, names=["b2", "a3", "c1"]))
+    out.append(dict(layout=[2], kind="fixed", Ks=[1, 1], per_cell_bins=True, names=["b2", "a3", "c1"], extra_in_middle=True))
+    out.append(dict(layout=[2], kind="fixed", Ks=[2, 1], per_cell_bins=False, names=["b2", "a3", "c1"], float_counts=True))
     return out
 
 
